@@ -134,7 +134,16 @@ CLAIMED = {
              "through the Stencil offset tables that tools/stencil_extract.py re-extracts from the header on every run); theorems "
              "assemble_in_bounds (no store leaves its row), assemble_entries (the assembled CSR matrix has exactly the operator's entries), "
              "code_solve_inverts(_dirichlet): the hypothesis `carries the operator's entries` is discharged for the code-level matrix; "
-             "tie: every CSR slot (column, value, storage order) of the real take solver, bit-identical to the model run in double.",
+             "tie: every CSR slot (column, value, storage order) of the real take solver, bit-identical to the model run in double.  "
+             "CODE LEVEL, GIVE (C04g): GMGModel/DirectGiveCode.lean models DirectSolverGiveCustomLU::buildSolverMatrix (every node scatters "
+             "accumulating stores `+=` into its own row and its neighbours' rows, offsets from the table of the ROW's radial index, "
+             "zero-initialised rows of getStencilSize, sequential order circle sections then radial sections; nothing is given TO a "
+             "Dirichlet row, the Dirichlet nodes do give to their interior neighbour; across the origin the mixed terms towards the antipode "
+             "are dropped); theorems assemble_in_bounds (nr >= 4, sharp: nr = 3 stores through offset -1), give_assemble_entries (the "
+             "scatter-assembled matrix has exactly the operator's entries; nt even >= 4; across the origin antipodally symmetric angular "
+             "spacing, sharp: hk_needed), give_take_same_matrix / give_take_same_pattern (same entries, same column in every slot as the "
+             "take assembly), assemble_order_independent (any order of the +=), code_solve_inverts(_dirichlet), give_take_same_solution; "
+             "tie: every CSR slot of the real give solver — threads=1 bit-identical to the model run in double, threads=4 within 2^-40*S.",
         design_ref="DESIGN.md section 4, C04 and R.9", note="across the origin (no Dirichlet inner boundary) non-vanishing pivots remain a hypothesis (C05 positive definiteness is only measured there); the absolute 1e-12 exit test of the LU (F7) is a separate hypothesis `tiny`.",
         technique="Lean 4 proof (linearity + LU correctness) + exact-residual correspondence and matrix read-out"),
     "C06": dict(
@@ -188,9 +197,16 @@ CLAIMED = {
              "of Fx, Fy for all parameters and all (r, theta) of the domain (Czarny: 0 < eps < 1, 0 <= r <= Rmax), closed-form determinants; "
              "alpha*beta = 1 for the three Gyro profiles (Sonnendrucker: arctan bound proved, r <= Rmax); alpha > 0; boundary data = exact "
              "solution for all 12 problem classes; the symbolic derivative D and the model's PDE operator Lu are correct (HasDerivAt, "
-             "flux_spec, metric_is_inverse, Lu_is_pde).  PARTIAL for the ~70 generated source-term classes: their C++ is too large to "
-             "translate into kernel-checkable terms, so `rhs_f = Lu(exact solution)` is checked pointwise (model-derived operator vs the "
-             "real class, 3 000 points per run) — that part is correspondence, not proof.  Culham (table-driven) by finite differences.",
+             "flux_spec, metric_is_inverse, Lu_is_pde).  SOURCE TERMS AS THEOREMS (C19s): the rhs_f of the 22 Circular-geometry classes is "
+             "translated too (Generated/SourceTerms.lean, pinned list); for 15 of the 21 manufactured problems on the circular geometry "
+             "(Poisson, Zoni, ZoniGyro, ZoniShifted, ZoniShiftedGyro x CartesianR2, CartesianR6, PolarR6) `rhs_f = Lu(exact solution)` is "
+             "PROVED at every point with r > 0 (Lu_circ_formula + field_simp / ring over the regenerated terms); for the 6 Sonnendrucker "
+             "classes the exact identity is FALSE (machine-checked counterexamples src_*_false): the shipped formulas hard-code alpha' with "
+             "15-digit literals rounded independently of the literals in alpha; proved instead: the exact defect (src_*_defect) and "
+             "|rhs_f - Lu u| <= 1e-11 |Rmax u_r| on 0 < r <= Rmax (src_*_approx), i.e. equality to rounding.  PARTIAL for the 44 Shafranov / "
+             "Czarny classes (pow(x, 3/2) is outside the translator's grammar, 2.5 MB of formulas): `rhs_f = Lu(exact solution)` is checked "
+             "pointwise (model-derived operator vs the real class, 3 000 points per run) — that part is correspondence, not proof.  Culham "
+             "(table-driven) by finite differences.",
         design_ref="DESIGN.md section R.3 / section 4, C19",
         note="F9 (three Poisson x Czarny source terms, open) is reported as a known finding; F8 (Culham cos 2theta) fixed.  Trusted: the "
              "translator's expression grammar (an unknown construct is an extraction failure = broken obligation).",
